@@ -42,6 +42,12 @@ def eval_term(t, tup):
     k = t[0]
     if k == 'const':
         return t[1]
+    if k == 'add':
+        a = eval_term(t[1], tup)
+        return None if a is None else a + t[2]
+    if k == 'ifterm':
+        c = eval_formula(t[1], tup)
+        return eval_term(t[2] if c else t[3], tup)
     if k == 'NAME':
         return tup.get('name')
     if k == 'REG':
@@ -82,6 +88,8 @@ def mentions_t(t):
         return {'imm'}
     if t[0] == 'mod':
         return mentions_t(t[1]) | mentions_t(t[2])
+    if t[0] == 'add':
+        return mentions_t(t[1])
     return set()
 
 
@@ -93,24 +101,40 @@ class Rule:
         names = [f[3][1] for f in formulas if f[0] == 'cmp' and f[1] == '==' and f[2] == ('NAME',) and f[3][0] == 'const']
         self.name = names[0] if len(names) == 1 else None
 
-    def enum_formulas(self):
-        """The formulas specialised to what the enumerations range over (literal operands: the immediate is a plain expression,
-        not a pc-relative label reference, and its evaluation succeeds)."""
-        if not hasattr(self, '_enum'):
-            assign = dict(ENUM_ASSIGN)
-            if getattr(self, 'inst_isa', None) is not None:
-                assign['KIND'] = lambda term, self=self: self.inst_isa(term[1]) if term[1].startswith('inst isa ') else False
-            self._enum = [simplify(f, assign) for f in self.formulas]
-        return self._enum
+    def enum_formulas(self, mode='literal'):
+        """The formulas specialised to what the enumerations range over.  mode 'literal': the immediate is a plain expression, not
+        a pc-relative label reference, and its evaluation succeeds.  mode 'offset': the immediate is %offset(<label>) - the distance
+        to a label - which is how every jump / branch to a label is written."""
+        cache = self.__dict__.setdefault('_enum', {})
+        if mode not in cache:
+            if mode == 'literal':
+                assign = dict(ENUM_ASSIGN)
+                if getattr(self, 'inst_isa', None) is not None:
+                    assign['KIND'] = lambda term, self=self: self.inst_isa(term[1]) if term[1].startswith('inst isa ') else False
+            else:
+                def kinds(term, self=self):
+                    text = term[1]
+                    if text.startswith('inst isa '):
+                        return self.inst_isa(text) if getattr(self, 'inst_isa', None) is not None else False
+                    if text.endswith(' in labels') or text.endswith(' in <env>'):
+                        return True
+                    if text.endswith(' in constants'):
+                        return False
+                    if text.endswith(' isa Offset'):
+                        return True
+                    return False
+                assign = {'ISARITH': False, 'ISLITERAL': False, 'ISOFFSET': True, 'UNDEF': False, 'KIND': kinds}
+            cache[mode] = [simplify(f, assign) for f in self.formulas]
+        return cache[mode]
 
-    def holds(self, tup):
-        return all(eval_formula(f, tup) for f in self.enum_formulas())
+    def holds(self, tup, mode='literal'):
+        return all(eval_formula(f, tup) for f in self.enum_formulas(mode))
 
-    def imm_bounds(self):
+    def imm_bounds(self, mode='literal'):
         """Interval and divisors mentioned for IMM (to bound the enumeration)."""
         lo, hi = None, None
         pts = set()
-        for f in (self.enum_formulas() if self.key is not None else self.formulas):
+        for f in (self.enum_formulas(mode) if self.key is not None else self.formulas):
             if f[0] == 'cmp' and f[2][0] in ('IMM', 'IMMC') and f[3][0] == 'const' and isinstance(f[3][1], int):
                 c = f[3][1]
                 if f[1] == '>=':
@@ -165,7 +189,21 @@ class CompRel:
                             top = par
                         par = getattr(par, '_parent', None)
                     self.factories.setdefault(fname, (None, None, top))
-                self.rules.append(Rule(key, preds, forms))
+                ru_ = Rule(key, preds, forms)
+                alts = None
+                if ru_.name is None:
+                    # a rule that admits several mnemonics (`i.name in (..)`): one rule per mnemonic, same construction
+                    for k_, f_ in enumerate(forms):
+                        if f_[0] == 'or' and f_[1] and all(x[0] == 'cmp' and x[1] == '==' and x[2] == ('NAME',) and x[3][0] == 'const' for x in f_[1]):
+                            alts = (k_, [x[3][1] for x in f_[1]])
+                            break
+                if alts is not None:
+                    for nm_ in alts[1]:
+                        forms_n = list(forms)
+                        forms_n[alts[0]] = ('cmp', '==', ('NAME',), ('const', nm_))
+                        self.rules.append(Rule(key, preds, forms_n))
+                else:
+                    self.rules.append(ru_)
             news = [(v, n) for v, n in r['app_values'] if v[0] == 'new']
             if r['path'].end == 'raise' or not news:
                 self.unbuilt.append((key, r))
@@ -217,13 +255,13 @@ class CompRel:
         attrs = [a for a, _ in self.facts.full_attr_order(cls) if a not in ('line', 'name', 'is_auipc_jump', 'aq', 'rl')]
         return cls, attrs
 
-    def field_domain(self, mnemonic, attr, rule):
+    def field_domain(self, mnemonic, attr, rule, mode='literal'):
         """Finite set of values to enumerate for an original field."""
         spec = oracle.RV32.get(mnemonic)
         if attr in ('rd', 'rs1', 'rs2', 'rd_rs1'):
             return list(range(32))
         if attr == 'imm':
-            lo, hi, pts = rule.imm_bounds()
+            lo, hi, pts = rule.imm_bounds(mode)
             if lo is None or hi is None:
                 if pts:
                     return sorted(pts)
@@ -237,17 +275,17 @@ class CompRel:
             return list(range(lo, hi + 1))
         return [None]
 
-    def region_tuples(self, rule):
+    def region_tuples(self, rule, mode='literal'):
         """All field tuples on which `rule` is the first rule to fire."""
         if rule.name is None:
             raise AnalysisError('rule {} does not fix the mnemonic with NameEquals'.format(rule.key))
         cls, attrs = self.item_fields(rule.name)
         if cls is None:
             raise AnalysisError('rule {}: mnemonic {} has no unique item class'.format(rule.key, rule.name))
-        doms = [self.field_domain(rule.name, a, rule) for a in attrs]
+        doms = [self.field_domain(rule.name, a, rule, mode) for a in attrs]
         # unary atoms prune each field's domain before the product is taken
         for idx, a in enumerate(attrs):
-            unary = [f for f in rule.enum_formulas() if mentions(f) == {a}]
+            unary = [f for f in rule.enum_formulas(mode) if mentions(f) == {a}]
             if unary:
                 doms[idx] = [v for v in doms[idx] if all(eval_formula(f, {a: v, 'name': rule.name}) for f in unary)]
         earlier = self.rules[:self.rules.index(rule)]
@@ -255,9 +293,9 @@ class CompRel:
         for combo in itertools.product(*doms):
             tup = dict(zip(attrs, combo))
             tup['name'] = rule.name
-            if not rule.holds(tup):
+            if not rule.holds(tup, mode):
                 continue
-            if any(e.holds(tup) for e in earlier):
+            if any(e.holds(tup, mode) for e in earlier):
                 continue
             yield tup
 
@@ -493,6 +531,27 @@ def check_stable_decisions(report, rel, rule):
         if not pcrel:
             residual2 = [simplify(f, {'ISOFFSET': True, 'KIND': kinds}) for f in ru.formulas]
             live = live + [t for f in residual2 for t in terms_of(f) if t[0] == 'IMM']
+        else:
+            # ... and only when the target is a label: the distance to an absolute constant *grows* when the code in front of the
+            # jump shrinks afterwards
+            def kinds_const(term, ru=ru):
+                text = term[1]
+                if text.startswith('inst isa '):
+                    return ru.inst_isa(text)
+                if text.endswith(' in labels'):
+                    return False
+                if text.endswith(' in constants') or text.endswith(' in <env>'):
+                    return True
+                return None
+            residual3 = [simplify(f, {'ISOFFSET': True, 'KIND': kinds_const}) for f in ru.formulas]
+            to_const = [t for f in residual3 for t in terms_of(f) if t[0] == 'IMM']
+            if to_const:
+                con_ = rel.constructions.get(ru.key)
+                node_ = con_.node if con_ is not None else rel.pa.loop
+                report.fail(Finding(rule, 'transform_compressible', node_,
+                                    "rule '{}' also decides on the distance to a target that is a constant (an absolute address): that distance grows when code in front of the "
+                                    'jump / branch is compressed afterwards, so a jump chosen as compressed can fall out of range - the program assembles without -c only'.format(ru.key),
+                                    line=getattr(node_, 'lineno', None)), instance="rule '{}' pc-relative decision only for label targets".format(ru.key))
         con = rel.constructions.get(ru.key)
         node = con.node if con is not None else rel.pa.loop
         report.check(not live, rule, "rule '{}' looks at the immediate only when it is final (label-free){}".format(ru.key, ' or the label target of the jump / branch' if pcrel else ''),
